@@ -912,7 +912,8 @@ pub fn run_c03_includes(ctx: &RunCtx) {
         }
         ctx.eval_local("C03", st, rep);
     });
-    let n = ctx.pick(3_000u64, 100_000u64);
+    // (cases that set QASM3_PATH are serialised: C18 carries the large run of these)
+    let n = ctx.pick(3_000u64, 20_000u64);
     run_arrangements(ctx, &["C03:"], "include-arrangement", n);
     cleanup_work();
 }
